@@ -245,7 +245,24 @@ class SpacePacketHeader(AbstractSpacePacket):
 
     def pack(self) -> bytearray:
         """Serialize raw space packet header into a bytearray, using big endian for each
-        2 octet field of the space packet header."""
+        2 octet field of the space packet header.
+
+        :raises ValueError: APID, sequence count or data length were assigned a value outside
+            their ranges after construction."""
+        if self.apid > MAX_APID or self.apid < 0:
+            raise ValueError(
+                f"Invalid APID {self.apid}, exceeds maximum value {MAX_APID} or negative"
+            )
+        if self.seq_count > MAX_SEQ_COUNT or self.seq_count < 0:
+            raise ValueError(
+                f"Invalid sequence count {self.seq_count}, exceeds maximum value"
+                f" {MAX_SEQ_COUNT} or negative"
+            )
+        if self.data_len > pow(2, 16) - 1 or self.data_len < 0:
+            raise ValueError(
+                f"Invalid data length value {self.data_len}, exceeds maximum value of"
+                f" {pow(2, 16) - 1} or negative"
+            )
         header = bytearray()
         packet_id_with_version = self.ccsds_version << 13 | self.packet_id.raw()
         header.extend(struct.pack("!H", packet_id_with_version))
